@@ -460,7 +460,11 @@ def snapshot_provenance(run, model, rule):
                 for k, p in n.pred:
                     if p.kind == "test":
                         tt = src_of(p.ast)
-                        if " is " not in tt:
+                        exprs = [p.ast]
+                        if isinstance(p.ast, ast.Name):
+                            # an explanatory temporary: look at what it was bound to
+                            exprs = [st.value for st in ast.walk(fi.node) if isinstance(st, ast.Assign) and any(isinstance(tg, ast.Name) and tg.id == p.ast.id for tg in st.targets)] or [p.ast]
+                        if not all(any(isinstance(c, ast.Compare) and any(isinstance(o, ast.Is) for o in c.ops) for c in ast.walk(e)) for e in exprs):
                             bad = "a snapshot is skipped under `%s`: only the very same snapshot object reached along several inheritance paths may be skipped, an equally named different snapshot is a conflict" % tt
         # diamond: the very same snapshot object collected along two inheritance paths is not a conflict
         ident = False
